@@ -59,3 +59,23 @@ Proof.
   exists s. split; [reflexivity|]. vm_compute in E. inversion E; subst; clear E.
   repeat split; try reflexivity. apply stuck_spec. vm_compute. reflexivity.
 Qed.
+
+(* W8 (positive): cancel(err) racing with a reducer write.  The mapper's cancel has recorded its error and sits in
+   drain(source) (the generator has not finished: done/output are still open); an early-stopping reducer hands its
+   value 2 to the caller in exactly that window; the caller's load then sees the recorded error: (nil, err 3). *)
+Definition cf_w8 : cfg := mkcfg 1 [7; 8] None (fun _ => [ACancel (Some 3)]) (Some 0) [RWrite 2] false.
+Definition sched_w8a : list label := [LX; LXAcq; LGSendX; LW 0; LW 0; LR; LCOut].
+Definition sched_w8b : list label := [LC; LGSendK; LG; LG; LW 0; LW 0; LW 0; LX; LXStop; LX; LX; LR; LR; LR; LC].
+
+Lemma w8_cancel_beats_racing_value : exists s s',
+  run cf_w8 (init cf_w8) sched_w8a = Some s /\
+  c s = COut (Some 2) /\ reterr s = Some (EUser 3) /\ conce s = ORunning /\ fin s = false /\
+  g s = GSend [8] /\ nth_error (ws s) 0 = Some (7, WCancel CcDrain (EUser 3) []) /\
+  run cf_w8 s sched_w8b = Some s' /\ final s' = true /\ c s' = CDone (OErr (EUser 3)).
+Proof.
+  destruct (run cf_w8 (init cf_w8) sched_w8a) as [s|] eqn:E; [|vm_compute in E; discriminate].
+  destruct (run cf_w8 s sched_w8b) as [s'|] eqn:E'; [|vm_compute in E; inversion E; subst; vm_compute in E'; discriminate].
+  exists s, s'. split; [reflexivity|].
+  vm_compute in E. inversion E; subst; clear E. vm_compute in E'. inversion E'; subst; clear E'.
+  repeat split; reflexivity.
+Qed.
